@@ -158,7 +158,27 @@ def forbidden_tokens() -> List[str]:
     return hits
 
 
+def sync_lake_files() -> None:
+    """lakefile.toml and the library root are generated: one `lean_exe drv_cXX` per Drivers/CXX.lean, and a root module
+    importing every Model/Lemmas/Gen/Props file that exists."""
+    exes = sorted(f.stem for f in (LEAN / "Drivers").glob("*.lean"))
+    toml = 'name = "PrimaiteModel"\nversion = "0.1.0"\ndefaultTargets = ["PrimaiteModel"]\n\n[[lean_lib]]\nname = "PrimaiteModel"\n\n[[lean_lib]]\nname = "Drivers"\n'
+    for e in exes:
+        toml += f'\n[[lean_exe]]\nname = "drv_{e.lower()}"\nroot = "Drivers.{e}"\n'
+    write_if_changed(LEAN / "lakefile.toml", toml)
+    mods = []
+    for sub in ("Model", "Lemmas", "Gen", "Props"):
+        for f in sorted((LEAN / "PrimaiteModel" / sub).glob("*.lean")):
+            mods.append(f"import PrimaiteModel.{sub}.{f.stem}")
+    write_if_changed(LEAN / "PrimaiteModel.lean", "\n".join(mods) + "\n")
+
+
+def all_driver_exes() -> List[str]:
+    return sorted("drv_" + f.stem.lower() for f in (LEAN / "Drivers").glob("*.lean"))
+
+
 def lake_build(targets: Sequence[str], clean: bool = False) -> Tuple[bool, str]:
+    sync_lake_files()
     if clean:
         sh(["lake", "clean"], cwd=LEAN)
     rc, out = sh(["lake", "build", *targets], cwd=LEAN, timeout=3000)
@@ -203,10 +223,13 @@ def run_driver(exe: str, lines: Iterable[str], timeout: int = 1200) -> List[str]
 
 # ----------------------------------------------------------------------------------------------- findings
 def load_findings() -> List[dict]:
+    out: List[dict] = []
     f = VERIF / "known_findings.json"
-    if not f.exists():
-        return []
-    return json.loads(f.read_text())["findings"]
+    if f.exists():
+        out += json.loads(f.read_text())["findings"]
+    for g in sorted((VERIF / "findings").glob("*.json")):  # per-property files written while a property is being built
+        out += json.loads(g.read_text())["findings"]
+    return out
 
 
 def sig_matches(signature: dict, sig: dict) -> bool:
